@@ -17,6 +17,7 @@ import (
 	"math/big"
 	"net"
 	"net/url"
+	"strings"
 	"sync"
 	"sync/atomic"
 	"testing"
@@ -53,9 +54,19 @@ func c09CaptureHello(cfg *tls.Config) ([]byte, error) {
 
 func c09Hellos() (map[string][]byte, error) {
 	out := map[string][]byte{}
+	// hellos beyond the 4096 bytes of a bufio.Reader: many / long ALPN protocol names
+	alpn := func(n int) []string {
+		var out []string
+		for i := 0; i < n; i++ {
+			out = append(out, fmt.Sprintf("c09-proto-%03d-%s", i, strings.Repeat("x", 180)))
+		}
+		return out
+	}
 	for name, cfg := range map[string]*tls.Config{
-		"tls13": {ServerName: "c09.example.com", InsecureSkipVerify: true, NextProtos: []string{"h2", "http/1.1"}},
-		"tls12": {ServerName: "c09.example.com", InsecureSkipVerify: true, MaxVersion: tls.VersionTLS12},
+		"tls13":   {ServerName: "c09.example.com", InsecureSkipVerify: true, NextProtos: []string{"h2", "http/1.1"}},
+		"tls12":   {ServerName: "c09.example.com", InsecureSkipVerify: true, MaxVersion: tls.VersionTLS12},
+		"alpn5k":  {ServerName: "c09.example.com", InsecureSkipVerify: true, NextProtos: alpn(19)},
+		"alpn12k": {ServerName: "c09.example.com", InsecureSkipVerify: true, MaxVersion: tls.VersionTLS12, NextProtos: alpn(60)},
 	} {
 		h, err := c09CaptureHello(cfg)
 		if err != nil {
@@ -94,6 +105,15 @@ func c09MintCert() (tls.Certificate, *tls.Config, error) {
 		&tls.Config{RootCAs: pool, ServerName: "c09.example.com", MinVersion: tls.VersionTLS12}, nil
 }
 
+// Listener timeouts.  The read timeout is short because the scenarios that are about it wait for
+// it to pass (the upstream answers c09Late after its trigger); the write timeout is never waited
+// for and must only be longer than a write to a reading client can take.
+const (
+	c09RT   = 200 * time.Millisecond
+	c09Late = 500 * time.Millisecond
+	c09WT   = 5 * time.Second
+)
+
 // c09Lane is one proxy per path kind in front of one scripted upstream (and a second upstream
 // whose kernel holds little: what it does not read stays queued inside the proxy's connection).
 type c09Lane struct {
@@ -129,18 +149,21 @@ func c09NewLane(cert tls.Certificate) (*c09Lane, error) {
 		"dyn": &DynamicProxy{Lookup: l.target},
 		"tls": &Proxy{Lookup: l.target}, // proto=tcp listener with a certificate source: fabio terminates TLS
 	} {
-		ln, addr, err := verifx.ListenFree()
-		if err != nil {
-			l.close()
-			return nil, err
-		}
-		srv := &Server{Addr: addr, Handler: h}
-		l.servers = append(l.servers, srv)
-		l.addr[path] = addr
-		if path == "tls" {
-			go srv.Serve(tls.NewListener(ln, &tls.Config{Certificates: []tls.Certificate{cert}}))
-		} else {
-			go srv.Serve(ln)
+		// listener configurations (proxy.addr options rt= / wt=): none, read timeout, write timeout, both
+		for conf, to := range map[string][2]time.Duration{"": {0, 0}, "rt": {c09RT, 0}, "wt": {0, c09WT}, "both": {c09RT, c09WT}} {
+			ln, addr, err := verifx.ListenFree()
+			if err != nil {
+				l.close()
+				return nil, err
+			}
+			srv := &Server{Addr: addr, Handler: h, ReadTimeout: to[0], WriteTimeout: to[1]}
+			l.servers = append(l.servers, srv)
+			l.addr[path+"/"+conf] = addr
+			if path == "tls" {
+				go srv.Serve(tls.NewListener(ln, &tls.Config{Certificates: []tls.Certificate{cert}}))
+			} else {
+				go srv.Serve(ln)
+			}
 		}
 	}
 	return l, nil
@@ -190,7 +213,7 @@ func TestVerifC09(t *testing.T) {
 	var sampleMu sync.Mutex
 	var samples []string
 	perPath := map[string]*int64{"tcp": new(int64), "sni": new(int64), "dyn": new(int64), "tls": new(int64)}
-	var errFamily, unsupported int64
+	var errFamily, unsupported, rtCases int64
 	var lanes []*c09Lane
 	for i := 0; i < nl; i++ {
 		lane, err := c09NewLane(cert)
@@ -215,7 +238,10 @@ func TestVerifC09(t *testing.T) {
 					atomic.AddInt64(&aborted, 1)
 					continue
 				}
-				addr, ok := lane.addr[c.Path]
+				addr, ok := lane.addr[c.Path+"/"+c.Conf]
+				if (c.Sc.RT == 1) != (c.Conf == "rt" || c.Conf == "both") {
+					ok = false // a read timeout only where the scenario is about one
+				}
 				hello := hellos[c.Hello]
 				if !ok || (c.Sc.Kind == "sni") != (c.Path == "sni") || (c.Sc.Kind == "sni" && hello == nil) || (c.Path == "dyn" && c.Sc.Proxy == 1) {
 					verifx.Emit(map[string]any{"kind": "error", "msg": fmt.Sprintf("case %d: path %q / hello %q not playable here", c.ID, c.Path, c.Hello)})
@@ -225,7 +251,7 @@ func TestVerifC09(t *testing.T) {
 					atomic.AddInt64(&unsupported, 1)
 					continue
 				}
-				env := &verifx.TunnelEnv{ProxyAddr: addr, UpL: lane.upL, Before: func(c *verifx.TunnelCase) {
+				env := &verifx.TunnelEnv{ProxyAddr: addr, UpL: lane.upL, Late: c09Late, Before: func(c *verifx.TunnelCase) {
 					lane.pp.Store(c.Sc.Proxy == 1)
 					lane.slow.Store(c.Sc.USlow == 1)
 				}}
@@ -257,7 +283,10 @@ func TestVerifC09(t *testing.T) {
 					}
 					verifx.Fail(c, feat, "%s", msg)
 				}
-				b, _ := json.Marshal([]any{c.Sc, c.Path, c.Spell, c.Split, c.Hello, c.TLSVer, c.Cork})
+				if c.Sc.RT == 1 {
+					atomic.AddInt64(&rtCases, 1)
+				}
+				b, _ := json.Marshal([]any{c.Sc, c.Path, c.Spell, c.Split, c.Hello, c.TLSVer, c.Cork, c.Conf})
 				if _, dup := seen.LoadOrStore(verifx.Hash(b), true); !dup && len(res.ExpU) > 0 && len(res.ExpC) > 0 {
 					atomic.AddInt64(&nontrivial, 1)
 				}
@@ -280,6 +309,6 @@ func TestVerifC09(t *testing.T) {
 	verifx.Summary(map[string]any{"cases": len(cases), "ran": ran, "evaluations": evals, "distinct_nontrivial": nontrivial,
 		"hangs": hangs, "skipped": skipped, "aborted": aborted, "samples": samples,
 		"tcp": *perPath["tcp"], "sni": *perPath["sni"], "dyn": *perPath["dyn"], "tls": *perPath["tls"],
-		"failing_direction": errFamily, "unsupported": unsupported,
-		"hello_sizes": map[string]int{"tls13": len(hellos["tls13"]), "tls12": len(hellos["tls12"])}})
+		"failing_direction": errFamily, "unsupported": unsupported, "read_timeout": rtCases,
+		"hello_sizes": map[string]int{"tls13": len(hellos["tls13"]), "tls12": len(hellos["tls12"]), "alpn5k": len(hellos["alpn5k"]), "alpn12k": len(hellos["alpn12k"])}})
 }
